@@ -1,6 +1,1047 @@
-//! Monitor for C38 (see /verif/DESIGN.md §5 C38).
-use vcommon::Args;
+//! Monitor for C38 (see /verif/DESIGN.md §5 C38): LP staking rewards follow the APY schedule and
+//! unstaking is fair.
+//!
+//! Part (a): the pure reward functions of the liquidity-provider program (through hook H2,
+//! `gmsol_liquidity_provider::verif`) against a BigInt per-second definition.
+//! Part (b): instruction-level histories in `hostsvm` (initialize / controllers / stake / clock /
+//! claim / partial unstake / full exit / claims enabled-disabled / dust in the vault).
+use crate::world::{lp::*, World, UNIT};
+use anchor_lang::prelude::Pubkey;
+use anchor_spl::token::spl_token;
+use gmsol_liquidity_provider as lp;
+use hostsvm::{key, token, TxError};
+use vcommon::{
+    big::{b, to_u128},
+    json,
+    num_bigint::BigInt,
+    num_traits::Zero,
+    Args, Monitor, Rng,
+};
 
-pub fn run(_args: &Args) -> Option<i32> {
-    None
+const WEEK: u64 = 7 * 24 * 3600;
+const YEAR: u128 = 31_557_600;
+const APY_MAX: u128 = lp::APY_MAX;
+const NB: usize = 53;
+
+// ------------------------------------------------------------------------------------------------
+// Oracles (BigInt)
+
+/// Σ over the elapsed seconds `s ∈ [0, total)` of `gradient[min(s / WEEK, 52)]`, by counting the seconds
+/// that fall into each weekly bucket.
+fn apy_sum_exact(total: u128, g: &[u128; NB]) -> BigInt {
+    let mut acc = BigInt::zero();
+    let w = WEEK as u128;
+    for (k, gk) in g.iter().enumerate() {
+        let lo = (k as u128) * w;
+        if total <= lo {
+            break;
+        }
+        let secs = if k == NB - 1 { total - lo } else { (total - lo).min(w) };
+        acc += b(*gk) * b(secs);
+    }
+    acc
+}
+
+/// The same sum, literally second by second (used on short durations to validate the oracle above).
+fn apy_sum_literal(total: u64, g: &[u128; NB]) -> BigInt {
+    let mut acc = BigInt::zero();
+    let mut chunk: u128 = 0;
+    for s in 0..total {
+        let k = ((s / WEEK) as usize).min(NB - 1);
+        chunk += g[k];
+        if s % 4096 == 4095 {
+            acc += b(chunk);
+            chunk = 0;
+        }
+    }
+    acc + b(chunk)
+}
+
+/// Time-weighted APY, `None` when no second has elapsed (the average is undefined there).
+fn twapy_exact(start: i64, now: i64, g: &[u128; NB]) -> Option<(BigInt, BigInt)> {
+    if now <= start {
+        return None;
+    }
+    let total = (now as i128 - start as i128) as u128;
+    let sum = apy_sum_exact(total, g);
+    Some((&sum / b(total), sum))
+}
+
+#[derive(Debug, PartialEq, Eq, Clone)]
+enum RewardExp {
+    /// Exact reward in GT base units (after the documented saturation to `u64::MAX`).
+    Amount(u64),
+    /// An intermediate does not fit `u128`: the program reports `MathOverflow`.
+    Overflow,
+}
+
+/// `min(u64::MAX, ⌊⌊value·apy_per_sec / 10^20⌋ · integral / 10^20⌋)` — the rounding the code documents
+/// (two `apply_factor` floors, then saturation).
+fn reward_exact(value: u128, apy_per_sec: u128, integral: u128) -> RewardExp {
+    let unit = b(UNIT);
+    let a = b(value) * b(apy_per_sec) / &unit;
+    if to_u128(&a).is_none() {
+        return RewardExp::Overflow;
+    }
+    let r = a * b(integral) / &unit;
+    match to_u128(&r) {
+        None => RewardExp::Overflow,
+        Some(x) if x > u64::MAX as u128 => RewardExp::Amount(u64::MAX),
+        Some(x) => RewardExp::Amount(x as u64),
+    }
+}
+
+/// Reward of a position as the instructions compute it: per-second APY = ⌊time-weighted APY / seconds per year⌋.
+fn position_reward_exact(value: u128, start: i64, end: i64, g: &[u128; NB], integral: u128) -> RewardExp {
+    let avg = match twapy_exact(start, end, g) {
+        Some((avg, _)) => to_u128(&avg).unwrap_or(u128::MAX),
+        // No elapsed second: the integral is zero as well, any APY gives the same reward.
+        None => g[0],
+    };
+    reward_exact(value, avg / YEAR, integral)
+}
+
+// ------------------------------------------------------------------------------------------------
+// Part (a): pure functions
+
+fn gen_gradient(rng: &mut Rng) -> [u128; NB] {
+    let mut g = [0u128; NB];
+    match rng.below(8) {
+        0 => g = [rng.biased_u128(APY_MAX, UNIT); NB],
+        1 => g = [APY_MAX; NB],
+        2 => {
+            // increasing ramp
+            let step = rng.range_u128(0, APY_MAX / NB as u128);
+            for (k, x) in g.iter_mut().enumerate() {
+                *x = step * k as u128;
+            }
+        }
+        3 => {
+            // decreasing ramp
+            let step = rng.range_u128(0, APY_MAX / NB as u128);
+            for (k, x) in g.iter_mut().enumerate() {
+                *x = APY_MAX - step * k as u128;
+            }
+        }
+        4 => {
+            // sparse
+            for _ in 0..rng.range(1, 6) {
+                let k = rng.below(NB as u64) as usize;
+                g[k] = rng.biased_u128(APY_MAX, UNIT);
+            }
+        }
+        5 => {
+            // only the last bucket differs
+            let base = rng.biased_u128(APY_MAX, UNIT);
+            g = [base; NB];
+            g[NB - 1] = rng.biased_u128(APY_MAX, UNIT);
+        }
+        _ => {
+            for x in g.iter_mut() {
+                *x = rng.biased_u128(APY_MAX, UNIT);
+            }
+        }
+    }
+    g
+}
+
+fn gen_times(rng: &mut Rng) -> (i64, i64, &'static str) {
+    let max = i64::MAX as u64;
+    let start: u64 = match rng.below(6) {
+        0 => 0,
+        1 => rng.range(1_600_000_000, 2_000_000_000),
+        2 => rng.log_u64(max),
+        3 => max - rng.log_u64(1 << 40),
+        _ => rng.range(0, 4_000_000_000),
+    };
+    let room = max - start;
+    let (dur, class): (u64, &'static str) = match rng.below(12) {
+        0 => (0, "zero"),
+        1 => (rng.range(1, 3), "tiny"),
+        2 => (rng.range(1, WEEK - 1), "lt_week"),
+        3 | 4 => {
+            // around a week boundary
+            let k = rng.range(1, 60);
+            let d = rng.range(0, 2);
+            (if rng.bool() { k * WEEK + d } else { k * WEEK - d }, "week_edge")
+        }
+        5 => {
+            // around the last bucket boundary
+            let d = rng.range(0, 3);
+            let base = *rng.pick(&[51 * WEEK, 52 * WEEK, 53 * WEEK]);
+            (if rng.bool() { base + d } else { base - d }, "last_bucket_edge")
+        }
+        6 => (rng.range(52 * WEEK, 400 * WEEK), "beyond_last"),
+        7 => (rng.range(1, 52 * WEEK), "within_year"),
+        8 => (rng.log_u64(max), "log"),
+        9 => (max - rng.log_u64(1 << 50), "huge"),
+        _ => (rng.range(1, 10 * 365 * 86400), "years"),
+    };
+    let dur = dur.min(room);
+    (start as i64, (start + dur) as i64, if dur == 0 { "zero" } else { class })
+}
+
+fn hash_case(parts: &[u128]) -> Vec<u8> {
+    let mut v = Vec::with_capacity(parts.len() * 16);
+    for p in parts {
+        v.extend_from_slice(&p.to_le_bytes());
+    }
+    v
+}
+
+fn pure_apy_case(m: &mut Monitor, rng: &mut Rng) {
+    let g = gen_gradient(rng);
+    let (start, now, class) = gen_times(rng);
+    m.eval();
+    m.count("apy_cases");
+    m.count(&format!("apy_class_{class}"));
+    let got = match vcommon::monitor::guard(|| lp::verif::compute_time_weighted_apy(start, now, &g)) {
+        Ok(x) => x,
+        Err(p) => {
+            m.count("panics");
+            m.count("apy_panics");
+            let _ = p;
+            return;
+        }
+    };
+    let Some((exact, sum)) = twapy_exact(start, now, &g) else {
+        // No elapsed second: the average over an empty set is undefined; nothing asserted.
+        m.count("apy_zero_duration");
+        return;
+    };
+    let total = (now as i128 - start as i128) as u128;
+    let witness = || {
+        json!({
+            "start": start.to_string(), "now": now.to_string(),
+            "gradient": g.iter().map(|x| x.to_string()).collect::<Vec<_>>(),
+            "got": got.to_string(), "exact": exact.to_string(), "sum": sum.to_string(),
+        })
+    };
+    // Oracle self-check on short durations: literal per-second sum.
+    if total <= 3 * WEEK as u128 && rng.chance(1, 40) {
+        let lit = apy_sum_literal(total as u64, &g);
+        m.count("apy_literal_per_second_checks");
+        if lit != sum {
+            m.inconclusive("oracle self-check failed: closed-form bucket sum != literal per-second sum");
+            return;
+        }
+    }
+    if b(got) == exact {
+        m.count("apy_equal");
+        let mut h = vec![start as u128, now as u128];
+        h.extend_from_slice(&g);
+        m.nontrivial(&hash_case(&h));
+        let full = total / WEEK as u128;
+        m.max("max_full_weeks_seen", full.min(u64::MAX as u128) as u64);
+        if m.wants_sample() && rng.chance(1, 2000) {
+            m.sample(json!({"kind": "time_weighted_apy", "start": start.to_string(), "now": now.to_string(), "g0": g[0].to_string(), "g52": g[52].to_string(), "apy": got.to_string()}));
+        }
+        return;
+    }
+    if to_u128(&sum).is_none() {
+        // The exact per-second sum exceeds u128: the code's saturating accumulator cannot hold it.
+        m.count("apy_accumulator_saturated");
+        m.violation("C38:compute_time_weighted_apy:accumulator_saturated", witness());
+        // Tight residual bound for this class: the accumulator sticks at u128::MAX.
+        if got != u128::MAX / total {
+            m.violation("C38:compute_time_weighted_apy:saturated_residual_mismatch", witness());
+        }
+        return;
+    }
+    m.violation("C38:compute_time_weighted_apy:not_per_second_average", witness());
+}
+
+fn call_reward(value: u128, dur: i64, apy_ps: u128, integral: u128) -> Result<Option<u64>, String> {
+    vcommon::monitor::guard(|| lp::verif::calculate_gt_reward_amount(value, dur, apy_ps, integral).ok())
+}
+
+fn gen_value(rng: &mut Rng) -> u128 {
+    match rng.below(6) {
+        0 => rng.biased_u128(u128::MAX, UNIT),
+        1 => rng.range_u128(0, 1000) * UNIT,
+        2 => rng.log_u128(10u128.pow(30)),
+        _ => rng.range_u128(UNIT, 10_000_000 * UNIT),
+    }
+}
+
+fn gen_integral(rng: &mut Rng) -> u128 {
+    match rng.below(6) {
+        0 => rng.biased_u128(u128::MAX, UNIT),
+        1 => 0,
+        2 => rng.log_u128(u128::MAX),
+        // seconds × (10^20 / minting cost) for plausible costs
+        _ => rng.range_u128(0, 400 * WEEK as u128) * rng.log_u128(10u128.pow(14)),
+    }
+}
+
+fn pure_reward_case(m: &mut Monitor, rng: &mut Rng) {
+    let apy = rng.biased_u128(APY_MAX, UNIT);
+    let apy_ps = apy / YEAR;
+    let dur = rng.biased_i64(WEEK).unsigned_abs().min(i64::MAX as u64) as i64;
+    let v1 = gen_value(rng);
+    let i1 = gen_integral(rng);
+    // A second point with a larger-or-equal stake value and a longer-or-equal cost integral.
+    let v2 = match rng.below(4) {
+        0 => v1,
+        1 => v1.saturating_add(rng.range_u128(0, 3)),
+        2 => v1.saturating_add(rng.log_u128(u128::MAX - v1)),
+        _ => v1.saturating_add(rng.range_u128(0, UNIT)),
+    };
+    let i2 = match rng.below(4) {
+        0 => i1,
+        1 => i1.saturating_add(rng.range_u128(0, 3)),
+        2 => i1.saturating_add(rng.log_u128(u128::MAX - i1)),
+        _ => i1.saturating_add(rng.range_u128(0, UNIT)),
+    };
+    m.eval();
+    m.count("reward_cases");
+    let mut res = [None, None];
+    for (slot, (v, i)) in [(v1, i1), (v2, i2)].into_iter().enumerate() {
+        let got = match call_reward(v, dur, apy_ps, i) {
+            Ok(x) => x,
+            Err(_) => {
+                m.count("panics");
+                m.count("reward_panics");
+                return;
+            }
+        };
+        let exp = reward_exact(v, apy_ps, i);
+        let w = || json!({"staked_value": v.to_string(), "duration": dur.to_string(), "apy_per_sec": apy_ps.to_string(), "inv_cost_integral": i.to_string(), "got": format!("{got:?}"), "expected": format!("{exp:?}")});
+        match (&exp, got) {
+            (RewardExp::Amount(e), Some(x)) if *e == x => {
+                m.count(if x == 0 {
+                    "reward_zero"
+                } else if x == u64::MAX {
+                    "reward_saturated_u64"
+                } else {
+                    "reward_positive"
+                });
+            }
+            (RewardExp::Overflow, None) => m.count("reward_overflow_reported"),
+            (RewardExp::Amount(_), None) => {
+                // The program reports failure although the documented formula is representable.
+                m.count("reward_unexpected_failure");
+                m.violation("C38:calculate_gt_reward_amount:fails_on_representable", w());
+            }
+            _ => m.violation("C38:calculate_gt_reward_amount:value_mismatch", w()),
+        }
+        res[slot] = got;
+    }
+    if let [Some(r1), Some(r2)] = res {
+        m.count("reward_monotone_pairs");
+        if r1 > r2 {
+            m.violation(
+                "C38:calculate_gt_reward_amount:not_monotone",
+                json!({"duration": dur.to_string(), "apy_per_sec": apy_ps.to_string(),
+                    "value_1": v1.to_string(), "integral_1": i1.to_string(), "reward_1": r1.to_string(),
+                    "value_2": v2.to_string(), "integral_2": i2.to_string(), "reward_2": r2.to_string()}),
+            );
+        } else if r2 > 0 && (v1, i1) != (v2, i2) {
+            m.nontrivial(&hash_case(&[v1, i1, v2, i2, apy_ps]));
+            if r2 > r1 {
+                m.count("reward_strictly_larger");
+            }
+        }
+    } else {
+        m.count("reward_pair_with_failure");
+    }
+}
+
+
+// ------------------------------------------------------------------------------------------------
+// Part (b): instruction-level histories
+
+#[derive(Clone, Debug)]
+struct Pos {
+    owner: usize,
+    market: usize,
+    ctrl: u64,
+    id: u64,
+}
+
+/// What the accounts say about a position before an instruction.
+#[derive(Clone, Debug)]
+struct PosView {
+    amount: u64,
+    value: u128,
+    start: i64,
+    cum: u128,
+    vault: u64,
+}
+
+struct Hist {
+    w: World,
+    admin: Pubkey,
+    users: Vec<Pubkey>,
+    positions: Vec<Pos>,
+    ctrls: Vec<(usize, u64)>,
+    next_id: u64,
+    prices_at: i64,
+    prices: Vec<(usize, u128)>,
+    log: Vec<String>,
+    tag: String,
+}
+
+const E18: u128 = 1_000_000_000_000_000_000;
+/// Chainlink report timestamps are `u32`: keep the simulated clock below this.
+const MAX_CLOCK: i64 = 4_000_000_000;
+
+fn err_class(e: &TxError) -> String {
+    match e {
+        TxError::Program(anchor_lang::solana_program::program_error::ProgramError::Custom(c)) => format!("custom_{c}"),
+        TxError::Program(p) => format!("program_{p:?}").chars().filter(|c| c.is_alphanumeric() || *c == '_').take(40).collect(),
+        TxError::Panic(_) => "panic".into(),
+        TxError::Runtime(s) => format!("runtime_{}", s.split_whitespace().next().unwrap_or("")).chars().filter(|c| c.is_alphanumeric() || *c == '_').collect(),
+    }
+}
+
+impl Hist {
+    fn new(rng: &mut Rng, tag: String) -> Hist {
+        let mut w = World::bootstrap_store();
+        w.bootstrap_oracle();
+        let btc = w.add_token("BTC", 8, 2, true);
+        let sol = w.add_token("SOL", 9, 4, false);
+        let usdc = w.add_token("USDC", 6, 6, false);
+        let m0 = w.add_market(sol, sol, usdc);
+        let m1 = w.add_market(btc, sol, usdc);
+        let prices = vec![(btc, rng.range_u128(20_000, 90_000) * E18), (sol, rng.range_u128(20, 300) * E18), (usdc, E18)];
+        let admin = key("lp-admin");
+        let mut h = Hist {
+            w,
+            admin,
+            users: vec![],
+            positions: vec![],
+            ctrls: vec![],
+            next_id: rng.range(0, 1000),
+            prices_at: 0,
+            prices,
+            log: vec![],
+            tag,
+        };
+        h.refresh_prices();
+        let (sol_mint, usdc_mint) = (h.w.tokens[sol].mint, h.w.tokens[usdc].mint);
+        for i in 0..3 {
+            let u = h.w.add_user(&format!("lp{i}"));
+            token::fund_ata(&mut h.w.svm, &u, &sol_mint, 1_000_000_000_000_000);
+            token::fund_ata(&mut h.w.svm, &u, &usdc_mint, 1_000_000_000_000_000);
+            h.users.push(u);
+            for m in [m0, m1] {
+                // 1 .. 20 000 SOL and 100 .. 2 000 000 USDC
+                let long = rng.range(1, 20_000) * 1_000_000_000;
+                let short = rng.range(100, 2_000_000) * 1_000_000;
+                let d = h.w.create_deposit(u, m, long, short, None, None, &[], &[], 0).unwrap_or_else(|(e, _)| panic!("bootstrap create_deposit: {e:?}"));
+                h.w.execute_deposit(d, true).unwrap_or_else(|(e, _)| panic!("bootstrap execute_deposit: {e:?}"));
+                h.w.close_deposit(u, d).unwrap_or_else(|(e, _)| panic!("bootstrap close_deposit: {e:?}"));
+            }
+            let pu = h.w.prepare_user_ix(u);
+            h.w.must("prepare_user", &[pu], &[u]);
+        }
+        // GT: the deployment parameters of the repository's tests with a varied minting cost.
+        let mut gt = GtParams::like_tests();
+        gt.initial_minting_cost = *rng.pick(&[gt.initial_minting_cost, gt.initial_minting_cost / 100, gt.initial_minting_cost * 100, gt.initial_minting_cost / 7 + 1]);
+        gt.grow_step = *rng.pick(&[gt.grow_step, gt.grow_step / 10, gt.grow_step * 1000]);
+        let min_stake = match rng.below(4) {
+            0 => 0,
+            1 => rng.range_u128(1, 50) * UNIT,
+            2 => rng.range_u128(50, 5_000) * UNIT,
+            _ => 1_000 * UNIT / 100,
+        };
+        let apy = rng.biased_u128(APY_MAX, UNIT);
+        h.w.lp_bootstrap(admin, &gt, min_stake, apy);
+        for (m, c) in [(m0, 0u64), (m1, 0), (m0, 1)] {
+            let i = h.w.lp_create_controller_ix(admin, h.w.markets[m].market_token, c);
+            h.w.must("create_lp_token_controller", &[i], &[admin]);
+            h.ctrls.push((m, c));
+        }
+        h
+    }
+
+    fn now(&self) -> i64 {
+        self.w.svm.clock.unix_timestamp
+    }
+
+    fn note(&mut self, s: String) {
+        if self.log.len() >= 400 {
+            self.log.remove(0);
+        }
+        self.log.push(format!("t={} {s}", self.now()));
+    }
+
+    fn refresh_prices(&mut self) {
+        for (t, p) in self.prices.clone() {
+            let spread = p / 2000;
+            if let Err((e, _)) = self.w.set_price(t, p - spread, p, p + spread) {
+                panic!("bootstrap step `set_price` failed: {e:?}");
+            }
+        }
+        self.prices_at = self.now();
+    }
+
+    fn gs(&self) -> lp::GlobalState {
+        lp_load::<lp::GlobalState>(&self.w.svm, &lp_global_state()).expect("global state")
+    }
+
+    fn controller(&self, market: usize, ctrl: u64) -> lp::LpTokenController {
+        lp_load::<lp::LpTokenController>(&self.w.svm, &lp_controller(&self.w.markets[market].market_token, ctrl)).expect("controller")
+    }
+
+    fn pos_key(&self, p: &Pos) -> Pubkey {
+        lp_position(&lp_controller(&self.w.markets[p.market].market_token, p.ctrl), &self.users[p.owner], p.id)
+    }
+
+    fn view(&self, p: &Pos) -> Option<PosView> {
+        let k = self.pos_key(p);
+        let a: lp::Position = lp_load(&self.w.svm, &k)?;
+        let vault = token::token_amount(&self.w.svm, &lp_position_vault(&k))?;
+        Some(PosView { amount: a.staked_amount, value: a.staked_value_usd, start: a.stake_start_time, cum: a.cum_inv_cost, vault })
+    }
+
+    fn gm_balance(&self, user: usize, market: usize) -> u64 {
+        token::token_amount(&self.w.svm, &token::ata(&self.users[user], &self.w.markets[market].market_token)).unwrap_or(0)
+    }
+
+    fn witness(&self, extra: vcommon::serde_json::Value) -> vcommon::serde_json::Value {
+        json!({"history": self.tag, "detail": extra, "ops": self.log})
+    }
+
+    /// `(effective end time, C(end))` the reward computation uses for a position of this controller.
+    fn reward_window(&mut self, market: usize, ctrl: u64) -> Option<(i64, u128)> {
+        let c = self.controller(market, ctrl);
+        if c.is_enabled {
+            Some((self.now(), self.w.lp_peek_cum_inv_cost()?))
+        } else {
+            Some((c.disabled_at, c.disabled_cum_inv_cost))
+        }
+    }
+
+    fn op_warp(&mut self, rng: &mut Rng, m: &mut Monitor) {
+        let room = MAX_CLOCK - self.now();
+        if room <= 1 {
+            m.count("warp_skipped_clock_limit");
+            return;
+        }
+        let dt = match rng.below(10) {
+            0 => rng.range(1, 5),
+            1 => rng.range(1, 300),
+            2 => rng.range(300, 86_400),
+            3 => rng.range(86_400, WEEK),
+            4 | 5 => {
+                let k = rng.range(1, 8);
+                let d = rng.range(0, 2);
+                if rng.bool() {
+                    k * WEEK + d
+                } else {
+                    k * WEEK - d
+                }
+            }
+            6 => rng.range(WEEK, 30 * WEEK),
+            7 => rng.range(30 * WEEK, 60 * WEEK),
+            8 => rng.range(52 * WEEK, 200 * WEEK),
+            _ => rng.range(1, 3600),
+        } as i64;
+        let dt = dt.min(room - 1).max(1);
+        self.w.svm.warp(dt);
+        m.count("op_warp");
+        if dt >= 52 * WEEK as i64 {
+            m.count("warp_beyond_last_bucket");
+        }
+        self.note(format!("warp {dt}"));
+    }
+
+    fn op_stake(&mut self, rng: &mut Rng, m: &mut Monitor) {
+        let user = rng.below(self.users.len() as u64) as usize;
+        let (market, ctrl) = *rng.pick(&self.ctrls);
+        let bal = self.gm_balance(user, market);
+        let amount = match rng.below(10) {
+            0 => 0,
+            1 => bal,
+            2 => bal.saturating_add(1),
+            3 => rng.range(1, 1000),
+            4 => rng.log_u64(bal.max(1)).max(1),
+            _ => rng.range(1, (bal / 4).max(1)),
+        };
+        let stale = self.now() - self.prices_at > 250;
+        if stale && !rng.chance(1, 12) {
+            self.refresh_prices();
+        }
+        let id = if rng.chance(1, 10) { rng.next_u64() } else { self.next_id };
+        self.next_id += 1;
+        let gs = self.gs();
+        let c_now = self.w.lp_peek_cum_inv_cost();
+        let owner = self.users[user];
+        let i = self.w.lp_stake_gm_ix(owner, market, ctrl, id, amount);
+        let r = self.w.send(&[i], &[owner]);
+        m.eval();
+        m.count("op_stake");
+        let p = Pos { owner: user, market, ctrl, id };
+        match r {
+            Ok(_) => {
+                m.count("stake_ok");
+                let v = self.view(&p);
+                self.note(format!("stake u={user} m={market} c={ctrl} id={id} amount={amount} -> ok {v:?}"));
+                let consistent = match (&v, c_now) {
+                    (Some(v), Some(c)) => {
+                        v.amount == amount
+                            && v.vault == amount
+                            && v.start == self.now()
+                            && v.cum == c
+                            && v.value >= gs.min_stake_value
+                            && self.gm_balance(user, market) == bal - amount
+                            && amount > 0
+                    }
+                    _ => false,
+                };
+                if !consistent {
+                    // Not part of C38's statement, but every later oracle relies on it.
+                    m.count("stake_record_mismatch");
+                    m.inconclusive("a successful stake_gm left a position / vault that does not match the request (later oracles rely on it)");
+                }
+                if let Some(v) = &v {
+                    m.max("max_staked_value_usd_e20_log2", 128 - v.value.leading_zeros() as u64);
+                }
+                self.positions.push(p);
+            }
+            Err((e, _)) => {
+                let class = if amount == 0 {
+                    "zero_amount".to_string()
+                } else if amount > bal {
+                    "above_balance".to_string()
+                } else if stale && self.now() - self.prices_at > 250 {
+                    "stale_prices".to_string()
+                } else {
+                    err_class(&e)
+                };
+                m.count(&format!("stake_rejected_{class}"));
+                self.note(format!("stake u={user} m={market} c={ctrl} id={id} amount={amount} -> {e:?}"));
+            }
+        }
+    }
+
+    fn pick_position(&self, rng: &mut Rng) -> Option<usize> {
+        if self.positions.is_empty() {
+            None
+        } else {
+            Some(rng.below(self.positions.len() as u64) as usize)
+        }
+    }
+
+
+    fn drop_position(&mut self, p: &Pos) {
+        self.positions.retain(|q| !(q.owner == p.owner && q.market == p.market && q.ctrl == p.ctrl && q.id == p.id));
+    }
+
+    /// Compare the GT minted by an instruction with the BigInt reward of the documented formula.
+    fn check_reward(&self, m: &mut Monitor, site: &str, v: &PosView, window: Option<(i64, u128)>, g: &[u128; NB], minted: u64, x: u64) {
+        let Some((end, c_end)) = window else {
+            m.count("reward_window_unavailable");
+            return;
+        };
+        let Some(integral) = c_end.checked_sub(v.cum) else {
+            m.count("reward_window_unavailable");
+            return;
+        };
+        let exp = position_reward_exact(v.value, v.start, end, g, integral);
+        if exp == RewardExp::Amount(minted) {
+            m.count(&format!("{site}_reward_exact"));
+            if minted > 0 {
+                m.count(&format!("{site}_reward_positive"));
+                let weeks = ((end - v.start).max(0) as u64) / WEEK;
+                m.max("max_weeks_staked_at_reward", weeks);
+                if weeks >= 52 {
+                    m.count("reward_paid_beyond_last_bucket");
+                }
+            }
+        } else {
+            m.violation(
+                &format!("C38:{site}:reward_mismatch"),
+                self.witness(json!({
+                    "staked_value_usd": v.value.to_string(), "stake_start_time": v.start, "effective_end_time": end,
+                    "cum_inv_cost_prev": v.cum.to_string(), "cum_inv_cost_end": c_end.to_string(),
+                    "gradient": g.iter().map(|x| x.to_string()).collect::<Vec<_>>(),
+                    "gt_minted": minted.to_string(), "expected": format!("{exp:?}"), "unstake_amount": x.to_string(),
+                })),
+            );
+        }
+    }
+
+    fn op_claim(&mut self, rng: &mut Rng, m: &mut Monitor) {
+        let Some(pi) = self.pick_position(rng) else {
+            m.count("claim_skipped_no_position");
+            return;
+        };
+        let p = self.positions[pi].clone();
+        let Some(v) = self.view(&p) else {
+            self.drop_position(&p);
+            return;
+        };
+        let gs = self.gs();
+        let window = self.reward_window(p.market, p.ctrl);
+        let owner = self.users[p.owner];
+        let gt0 = self.w.lp_gt_amount(&owner);
+        let mint = self.w.markets[p.market].market_token;
+        let i = self.w.lp_claim_gt_ix(owner, mint, p.ctrl, p.id);
+        let r = self.w.send(&[i], &[owner]);
+        m.eval();
+        m.count("op_claim");
+        match r {
+            Ok(_) => {
+                let minted = self.w.lp_gt_amount(&owner).wrapping_sub(gt0);
+                self.note(format!("claim u={} m={} c={} id={} enabled={} -> ok minted={minted}", p.owner, p.market, p.ctrl, p.id, gs.claim_enabled));
+                if !gs.claim_enabled {
+                    m.violation("C38:claim_gt:allowed_while_claims_disabled", self.witness(json!({"position": format!("{p:?}"), "pre": format!("{v:?}")})));
+                    return;
+                }
+                m.count("claim_ok");
+                self.check_reward(m, "claim_gt", &v, window, &gs.apy_gradient, minted, 0);
+                if minted > 0 {
+                    m.nontrivial(&hash_case(&[1, v.value, v.start as u128, self.now() as u128, minted as u128]));
+                }
+                match self.view(&p) {
+                    Some(a) if a.amount == v.amount && a.value == v.value && a.vault == v.vault && a.start == v.start => {}
+                    _ => {
+                        m.count("claim_changed_stake");
+                        m.inconclusive("a successful claim_gt changed the staked amount / value / vault (later oracles rely on it being untouched)");
+                    }
+                }
+            }
+            Err((e, _)) => {
+                self.note(format!("claim u={} m={} c={} id={} enabled={} -> {e:?}", p.owner, p.market, p.ctrl, p.id, gs.claim_enabled));
+                if !gs.claim_enabled {
+                    m.count("claim_rejected_claims_disabled");
+                } else {
+                    m.count(&format!("claim_failed_{}", err_class(&e)));
+                }
+            }
+        }
+    }
+
+    fn op_unstake(&mut self, rng: &mut Rng, m: &mut Monitor) {
+        let Some(pi) = self.pick_position(rng) else {
+            m.count("unstake_skipped_no_position");
+            return;
+        };
+        let p = self.positions[pi].clone();
+        let Some(v) = self.view(&p) else {
+            self.drop_position(&p);
+            return;
+        };
+        let gs = self.gs();
+        let a = v.amount;
+        let x: u64 = match rng.below(16) {
+            0 => 0,
+            1 => a.saturating_add(1),
+            2 => u64::MAX,
+            3 => 1,
+            4 => a.saturating_sub(1),
+            5 | 6 | 7 | 8 => a,
+            9 => a / 2,
+            10 => a - a / rng.range(2, 1000),
+            11 => (a / rng.range(2, 1000)).max(1),
+            _ => rng.range(1, a.max(1)),
+        };
+        let window = self.reward_window(p.market, p.ctrl);
+        let owner = self.users[p.owner];
+        let gt0 = self.w.lp_gt_amount(&owner);
+        let bal0 = self.gm_balance(p.owner, p.market);
+        let mint = self.w.markets[p.market].market_token;
+        let i = self.w.lp_unstake_ix(owner, mint, p.ctrl, p.id, x);
+        let r = self.w.send(&[i], &[owner]);
+        m.eval();
+        m.count("op_unstake");
+        let after = self.view(&p);
+        let pos_key = self.pos_key(&p);
+        let detail = |h: &Hist, what: &str| {
+            h.witness(json!({
+                "what": what, "position": format!("{p:?}"), "pre": format!("{v:?}"), "post": format!("{after:?}"),
+                "unstake_amount": x.to_string(), "claim_enabled": gs.claim_enabled, "min_stake_value": gs.min_stake_value.to_string(),
+                "user_balance_before": bal0.to_string(), "user_balance_after": h.gm_balance(p.owner, p.market).to_string(),
+            }))
+        };
+        match r {
+            Ok(_) => {
+                let minted = self.w.lp_gt_amount(&owner).wrapping_sub(gt0);
+                self.note(format!("unstake u={} m={} c={} id={} x={x} of {a} enabled={} -> ok minted={minted} post={after:?}", p.owner, p.market, p.ctrl, p.id, gs.claim_enabled));
+                if after.is_none() {
+                    self.drop_position(&p);
+                }
+                if x == 0 || x > a {
+                    m.violation("C38:unstake_lp:accepted_amount_outside_position", detail(self, "x = 0 or x > staked amount accepted"));
+                    return;
+                }
+                if !gs.claim_enabled && x != a {
+                    m.violation("C38:unstake_lp:partial_while_claims_disabled", detail(self, "partial unstake accepted while claims are disabled"));
+                    return;
+                }
+                let remaining = a - x;
+                let keep = to_u128(&(b(v.value) * b(remaining) / b(a))).expect("keep fits");
+                let got = self.gm_balance(p.owner, p.market) as i128 - bal0 as i128;
+                let sig = hash_case(&[2, a as u128, v.value, x as u128, v.vault as u128, gs.min_stake_value]);
+                match &after {
+                    None => {
+                        // The position is gone: a full exit.
+                        let vault_left = token::token_amount(&self.w.svm, &lp_position_vault(&pos_key)).unwrap_or(0);
+                        if remaining != 0 && keep >= gs.min_stake_value {
+                            m.violation("C38:unstake_lp:partial_request_closed_position", detail(self, "a partial request whose kept value is not below the minimum closed the position"));
+                        } else if got != v.vault as i128 || vault_left != 0 {
+                            m.violation("C38:unstake_lp:full_exit_did_not_sweep_vault", detail(self, "full exit must return the whole vault balance"));
+                        } else {
+                            m.count("unstake_full_ok");
+                            m.nontrivial(&sig);
+                            if v.vault > a {
+                                m.count("unstake_full_ok_with_dust_in_vault");
+                            }
+                            if remaining != 0 {
+                                m.count("unstake_full_ok_forced_by_min_stake_value");
+                            }
+                            if !gs.claim_enabled {
+                                m.count("unstake_full_ok_while_claims_disabled");
+                            }
+                        }
+                    }
+                    Some(post) => {
+                        if remaining == 0 {
+                            m.violation("C38:unstake_lp:full_exit_left_position", detail(self, "x = staked amount must be a full exit"));
+                        } else if got != x as i128 || post.vault != v.vault - x {
+                            m.violation("C38:unstake_lp:partial_returned_wrong_amount", detail(self, "partial unstake must return exactly the requested tokens"));
+                        } else if post.amount != remaining || post.value != keep {
+                            m.violation("C38:unstake_lp:partial_kept_wrong_value", detail(self, &format!("partial unstake must keep floor(value*remaining/old) = {keep}")));
+                        } else {
+                            m.count("unstake_partial_ok");
+                            m.nontrivial(&sig);
+                            if (b(v.value) * b(remaining)) % b(a) != BigInt::zero() {
+                                m.count("unstake_partial_ok_value_rounded_down");
+                            }
+                        }
+                    }
+                }
+                self.check_reward(m, "unstake_lp", &v, window, &gs.apy_gradient, minted, x);
+            }
+            Err((e, _)) => {
+                self.note(format!("unstake u={} m={} c={} id={} x={x} of {a} enabled={} -> {e:?}", p.owner, p.market, p.ctrl, p.id, gs.claim_enabled));
+                if x == 0 {
+                    m.count("unstake_rejected_zero");
+                } else if x > a {
+                    m.count("unstake_rejected_above_staked");
+                } else if !gs.claim_enabled && x != a {
+                    m.count("unstake_rejected_partial_while_claims_disabled");
+                } else {
+                    m.count(&format!("unstake_failed_{}", err_class(&e)));
+                }
+                if after.is_none() {
+                    // A failed transaction cannot have closed it (atomicity).
+                    m.inconclusive("harness: position vanished after a failed unstake");
+                }
+            }
+        }
+    }
+
+    fn op_dust(&mut self, rng: &mut Rng, m: &mut Monitor) {
+        let Some(pi) = self.pick_position(rng) else {
+            return;
+        };
+        let p = self.positions[pi].clone();
+        let donor = rng.below(self.users.len() as u64) as usize;
+        let amount = rng.range(1, 5000).min(self.gm_balance(donor, p.market));
+        if amount == 0 {
+            return;
+        }
+        let mint = self.w.markets[p.market].market_token;
+        let src = token::ata(&self.users[donor], &mint);
+        let dst = lp_position_vault(&self.pos_key(&p));
+        let Ok(i) = spl_token::instruction::transfer(&spl_token::ID, &src, &dst, &self.users[donor], &[], amount) else {
+            return;
+        };
+        let donor_key = self.users[donor];
+        match self.w.send(&[i], &[donor_key]) {
+            Ok(_) => {
+                m.count("op_dust_into_vault");
+                self.note(format!("dust donor={donor} -> vault of u={} m={} c={} id={} amount={amount}", p.owner, p.market, p.ctrl, p.id));
+            }
+            Err(_) => m.count("dust_failed"),
+        }
+    }
+
+    fn op_admin(&mut self, rng: &mut Rng, m: &mut Monitor) {
+        let admin = self.admin;
+        let (what, i, signer) = match rng.weighted(&[6, 4, 3, 3, 1]) {
+            0 => {
+                let en = rng.chance(2, 3);
+                (format!("set_claim_enabled {en}"), self.w.lp_set_claim_enabled_ix(admin, en), admin)
+            }
+            1 => {
+                // Around the values of existing positions so that partial unstakes cross it.
+                let base = self
+                    .pick_position(rng)
+                    .and_then(|pi| self.view(&self.positions[pi].clone()))
+                    .map(|v| v.value)
+                    .unwrap_or(100 * UNIT);
+                let v = match rng.below(6) {
+                    0 => 0,
+                    1 => base / 4,
+                    2 => base / 2,
+                    3 => base - base / 10,
+                    4 => base.saturating_add(1),
+                    _ => rng.range_u128(0, 2_000) * UNIT,
+                };
+                (format!("update_min_stake_value {v}"), self.w.lp_update_min_stake_value_ix(admin, v), admin)
+            }
+            2 => {
+                let n = rng.range(1, 6) as usize;
+                let idx: Vec<u8> = (0..n)
+                    .map(|_| {
+                        let hi = if rng.chance(1, 30) { 60 } else { 53 };
+                        rng.below(hi) as u8
+                    })
+                    .collect();
+                let vals: Vec<u128> = (0..n).map(|_| if rng.chance(1, 25) { APY_MAX + rng.range_u128(1, UNIT) } else { rng.biased_u128(APY_MAX, UNIT) }).collect();
+                (format!("update_apy_gradient_sparse {idx:?} {vals:?}"), self.w.lp_update_apy_sparse_ix(admin, idx, vals), admin)
+            }
+            3 => {
+                let s = rng.below(53) as u8;
+                let e = rng.range(s as u64, 52) as u8;
+                let n = (e - s + 1) as usize;
+                let n = if rng.chance(1, 20) { n + 1 } else { n };
+                let base = rng.biased_u128(APY_MAX, UNIT);
+                let vals: Vec<u128> = (0..n)
+                    .map(|k| if rng.chance(1, 60) { APY_MAX + 1 } else if rng.bool() { base } else { (base / (k as u128 + 1)).min(APY_MAX) })
+                    .collect();
+                (format!("update_apy_gradient_range {s}..={e} {vals:?}"), self.w.lp_update_apy_range_ix(admin, s, e, vals), admin)
+            }
+            _ => {
+                let stranger = self.users[0];
+                ("set_claim_enabled by a stranger".to_string(), self.w.lp_set_claim_enabled_ix(stranger, true), stranger)
+            }
+        };
+        let r = self.w.send(&[i], &[signer]);
+        m.count("op_admin");
+        match r {
+            Ok(_) => {
+                m.count("admin_ok");
+                if signer != admin {
+                    m.count("admin_by_stranger_accepted");
+                }
+                self.note(format!("{what} -> ok"));
+                let gs = self.gs();
+                m.eval();
+                if gs.apy_gradient.iter().any(|x| *x > APY_MAX) {
+                    m.violation("C38:apy_gradient:stored_value_above_cap", self.witness(json!({"gradient": gs.apy_gradient.iter().map(|x| x.to_string()).collect::<Vec<_>>()})));
+                }
+            }
+            Err((e, _)) => {
+                m.count("admin_rejected");
+                self.note(format!("{what} -> {e:?}"));
+            }
+        }
+    }
+
+    fn op_disable(&mut self, rng: &mut Rng, m: &mut Monitor) {
+        let (market, ctrl) = *rng.pick(&self.ctrls);
+        let admin = self.admin;
+        let i = self.w.lp_disable_controller_ix(admin, lp_controller(&self.w.markets[market].market_token, ctrl));
+        match self.w.send(&[i], &[admin]) {
+            Ok(_) => {
+                m.count("op_disable_controller_ok");
+                self.note(format!("disable controller m={market} c={ctrl} -> ok"));
+            }
+            Err((e, _)) => {
+                m.count("disable_controller_rejected");
+                self.note(format!("disable controller m={market} c={ctrl} -> {e:?}"));
+            }
+        }
+    }
+
+    fn op_calc(&mut self, rng: &mut Rng, m: &mut Monitor) {
+        let Some(pi) = self.pick_position(rng) else {
+            return;
+        };
+        let p = self.positions[pi].clone();
+        let keeper = self.w.keeper;
+        let i = self.w.lp_calculate_gt_reward_ix(self.users[p.owner], self.w.markets[p.market].market_token, p.ctrl, p.id);
+        match self.w.send(&[i], &[keeper]) {
+            Ok(_) => m.count("op_calculate_gt_reward_ok"),
+            Err((e, _)) => m.count(&format!("calculate_gt_reward_failed_{}", err_class(&e))),
+        }
+    }
+
+    fn run(&mut self, rng: &mut Rng, m: &mut Monitor, ops: u64) {
+        for _ in 0..ops {
+            match rng.weighted(&[16, 18, 14, 26, 12, 5, 1, 2]) {
+                0 => self.op_stake(rng, m),
+                1 => self.op_warp(rng, m),
+                2 => self.op_claim(rng, m),
+                3 => self.op_unstake(rng, m),
+                4 => self.op_admin(rng, m),
+                5 => self.op_dust(rng, m),
+                6 => {
+                    if rng.chance(1, 4) {
+                        self.op_disable(rng, m)
+                    }
+                }
+                _ => self.op_calc(rng, m),
+            }
+            if m.has_violations() {
+                break;
+            }
+        }
+    }
+}
+
+pub fn run(args: &Args) -> Option<i32> {
+    let quiet = hostsvm::QuietStdout::new();
+    let mut mon = Monitor::new(
+        args,
+        "part (a): random (start, now, 53-bucket gradient) and (value, per-second APY, integral) tuples through the real \
+         compute_time_weighted_apy / calculate_gt_reward_amount (hook H2); a case is non-trivial when a second elapsed and the \
+         result equals the BigInt per-second average (distinct = hash of all inputs), or when a monotonicity pair with a positive \
+         reward was compared (distinct = hash of both points). part (b): random instruction histories in hostsvm \
+         (stake_gm / clock / claim_gt / unstake_lp / admin / dust transfers); non-trivial = a successful claim with GT minted, or a \
+         successful partial / full unstake checked against the oracle (distinct = hash of (staked amount, value, request, vault balance, min stake value))",
+    );
+    let n_shards = args.scale(64, 256);
+    let pure_cases = args.scale(12_000, 120_000);
+    let histories = args.scale(4, 30);
+    let ops = args.scale(90, 140);
+    let seed = args.seed;
+    vcommon::monitor::run_shards(&mut mon, args.threads, n_shards, |shard, m| {
+        let mut rng = Rng::derive(seed, shard, 38);
+        for _ in 0..pure_cases {
+            pure_apy_case(m, &mut rng);
+            pure_reward_case(m, &mut rng);
+        }
+        for hidx in 0..histories {
+            let mut hrng = Rng::derive(seed, shard, 3800 + hidx);
+            let mut h = Hist::new(&mut hrng, format!("seed={seed} shard={shard} history={hidx}"));
+            m.count("histories");
+            h.run(&mut hrng, m, ops);
+        }
+    });
+    drop(quiet);
+    mon.assume("timestamps satisfy 0 <= stake_start_time <= now (what the program can store from the clock); negative timestamps are not generated");
+    mon.assume("APY gradient values are within the 200% cap (APY_MAX = 2*10^20); values above the cap are only sent to the update instructions to see them rejected");
+    mon.assume("with no elapsed second (now == start) the per-second average is undefined and nothing is asserted about the returned APY");
+    mon.assume("rounding documented by the code: APY = floor(sum over elapsed seconds / seconds); per-second APY = floor(APY / 31_557_600); reward = min(u64::MAX, floor(floor(value*apy_per_sec/10^20) * integral/10^20)); MathOverflow when an intermediate exceeds u128; partial unstake keeps floor(value*remaining/old)");
+    mon.assume("instruction level: GM tokens come from real deposits; C(now) is read by simulating the store's update_gt_cumulative_inv_cost_factor at the same timestamp; the reward actually minted is the change of the owner's GT balance");
+    mon.assume("a partial request that would leave less than min_stake_value is turned into a full exit by the program (whole vault swept); accepted as a full exit only when floor(value*remaining/old) < min_stake_value");
+    mon.set_extra(
+        "not_covered",
+        json!([
+            "stake_glv (GLV positions): no GLV flow in this monitor; claim / unstake code paths are shared with GM positions",
+            "Token-2022 LP mints",
+            "transfer_authority / accept_authority / set_pricing_staleness (not part of C38)",
+        ]),
+    );
+    mon.require("apy_equal", args.scale(100_000, 1_000_000));
+    mon.require("reward_monotone_pairs", args.scale(100_000, 1_000_000));
+    mon.require("apy_class_week_edge", 1000);
+    mon.require("apy_class_beyond_last", 1000);
+    mon.require("stake_ok", args.scale(300, 3000));
+    mon.require("claim_ok", args.scale(100, 1000));
+    mon.require("claim_gt_reward_positive", args.scale(30, 300));
+    mon.require("unstake_partial_ok", args.scale(100, 1000));
+    mon.require("unstake_full_ok", args.scale(100, 1000));
+    mon.require("unstake_full_ok_with_dust_in_vault", args.scale(10, 100));
+    mon.require("unstake_full_ok_while_claims_disabled", args.scale(20, 200));
+    mon.require("unstake_rejected_partial_while_claims_disabled", args.scale(30, 300));
+    mon.require("claim_rejected_claims_disabled", args.scale(20, 200));
+    Some(mon.finish())
 }
